@@ -298,7 +298,7 @@ def _validation(chk: Check) -> None:
 def _no_swallow(chk: Check) -> None:
     n = 0
     for f in chk.repo.all_functions():
-        if not _is_reader(f):
+        if not (_is_reader(f) or f.name in ("load_protobuf", "load_protobuf_file")):
             continue
         for t in walk_no_nested(f.node):
             if not isinstance(t, ast.Try):
@@ -306,6 +306,17 @@ def _no_swallow(chk: Check) -> None:
             for h in t.handlers:
                 n += 1
                 reraises = bool(h.body) and isinstance(h.body[-1], ast.Raise)
+                if reraises and h.body[-1].exc is not None:
+                    # re-raising as another class changes which exception a bad file produces
+                    caught = []
+                    if isinstance(h.type, ast.Tuple):
+                        caught = [(dotted(x) or ("",))[-1] for x in h.type.elts]
+                    elif h.type is not None:
+                        caught = [(dotted(h.type) or ("",))[-1]]
+                    e2 = h.body[-1].exc
+                    raised = (dotted(e2.func if isinstance(e2, ast.Call) else e2) or ("",))[-1]
+                    if "ValueError" in caught and raised != "ValueError":
+                        reraises = False
                 d = dotted(h.type) if h.type is not None else None
                 # the one tolerated fall-back: unknown symbolic-expression attribute numbers
                 tolerated = (d is not None and d[-1] == "ValueError" and len(t.body) == 1 and
